@@ -5,12 +5,15 @@ import itertools
 import random
 
 import common
+from common import hx
 import gen
 import impl_core
 
 RULE = ("cases = corpus + bounded-exhaustive small DAGs (all edge sets on <=3 topologically numbered targets x "
         "backend-state vectors x stale flags x endpoint choices) + seeded random DAG projects (spellings, shapes, "
-        "diamonds, several endpoints, disconnected parts); a case is non-trivial when at least one target is in flight "
+        "diamonds, several endpoints, disconnected parts) + (pattern, name) pairs with patterns derived from names by "
+        "glob mutations (*, ?, classes, negations, ranges incl. reversed and dangling, unclosed brackets) through the real NameFilter "
+        "+ CLI histories with pattern selections; a case is non-trivial when at least one target is in flight "
         "or failed/cancelled AND at least one target is stale or missing an output; distinct by canonical encoding")
 
 
@@ -100,10 +103,63 @@ def check_cases(chk, projs, label):
                 chk.notes.append({"harmless_divergence": {"project": p, "implementation": il, "model": ml}})
 
 
+class _Named:
+    def __init__(self, name):
+        self.name = name
+
+    def __hash__(self):
+        return hash(self.name)
+
+
+def gen_pattern_pair(rng):
+    """(pattern, name): the pattern is derived from a name by glob-style mutations, so matches are frequent"""
+    alpha = "AaBb1_.9"
+    name = rng.choice("AaBb_") + "".join(rng.choice(alpha) for _ in range(rng.randint(0, 5)))
+    base = name if rng.random() < 0.7 else rng.choice("AaBb_") + "".join(rng.choice(alpha) for _ in range(rng.randint(0, 5)))
+    out = []
+    i = 0
+    while i < len(base):
+        c = base[i]
+        r = rng.random()
+        if r < 0.45:
+            out.append(c)
+        elif r < 0.55:
+            out.append("?")
+        elif r < 0.70:
+            out.append("*")
+            i += rng.randint(0, 2)
+        elif r < 0.90:
+            body = rng.choice([c, c + "x", "x" + c, "A-Z", "a-z", "0-9", "a-b-c", c + "-", "-" + c, "z-a", "]" + c, "^" + c, "!" + c, "!x", "!", "", "A-" + c, "_."])
+            out.append("[" + body + "]" if rng.random() < 0.9 else "[" + body)
+        else:
+            out.append(rng.choice(["]", "-", "!", "^", "[", "**", ""]))
+        i += 1
+    return "".join(out), name
+
+
+def glob_part(chk):
+    """name patterns: the real NameFilter (fnmatch.filter) against the Lean matcher, pair by pair and as whole selections"""
+    from gwf.filtering import NameFilter
+    rng = chk.rng
+    n = 6000 if chk.tier == "quick" else 200000
+    pairs = [gen_pattern_pair(rng) for _ in range(n)]
+    impl = [bool(NameFilter([p]).apply([_Named(nm)])) for p, nm in pairs]
+    model = common.run_driver_sharded(["glob %s %s" % (hx(p), hx(nm)) for p, nm in pairs])
+    for (p, nm), i, m in zip(pairs, impl, model):
+        chk.count("pattern-pair")
+        if i:
+            chk.count("pattern-pair-matching")
+        chk.case(("glob", p, nm), any(c in p for c in "*?["), sample={"pattern": p, "name": nm, "selected": i} if i and "[" in p and "*" in p else None)
+        if ("1" if i else "0") != m:
+            chk.violation({"kind": "name-pattern", "pattern": p},
+                          common.mismatch_replay("input", {"pattern": p, "name": nm}, i, m,
+                                                 {"what": "a name pattern selects a target the model says it does not match (or the reverse): the requested set of a run differs"}))
+
+
 def run(chk):
     chk.rule = RULE
     chk.assumptions = ["status_func is a fixed table during one invocation (TrackingBackend queries the scheduler once)",
-                       "CPython dict/set/sorted semantics", "name-pattern selection: Lean glob model (GwfModel/Glob.lean) validated against fnmatch through the CLI histories"]
+                       "CPython dict/set/sorted semantics", "name-pattern selection: Lean glob model (GwfModel/Glob.lean) validated against the real NameFilter on generated (pattern, name) pairs and through the CLI histories; only names that are valid target names are generated"]
     for fn, data in common.load_corpus("C02"):
         check_cases(chk, [data["input"] if "input" in data else data], "corpus")
     small = list(enumerate_small(chk.tier))
@@ -120,6 +176,7 @@ def run(chk):
         check_cases(chk, projs[k:k + 20000], "random")
     if chk.counters.get("impl:ok", 0) < 0.5 * chk.evaluations:
         raise common.Broken("degenerate generator: too few valid workflows")
+    glob_part(chk)
     # CLI level: `gwf run [patterns]` (plugin glue, fnmatch selection, TrackingBackend) against a simulated cluster
     import history_check as HC
     rule, assume = chk.rule, chk.assumptions
@@ -128,5 +185,14 @@ def run(chk):
 
 def replay(chk, data):
     chk.rule = RULE
+    if "pattern" in data["input"]:
+        from gwf.filtering import NameFilter
+        p, nm = data["input"]["pattern"], data["input"]["name"]
+        i = bool(NameFilter([p]).apply([_Named(nm)]))
+        m = common.run_driver(["glob %s %s" % (hx(p), hx(nm))])[0]
+        print("implementation", i, "model", m)
+        if ("1" if i else "0") != m:
+            chk.violation({"kind": "name-pattern", "pattern": p}, common.mismatch_replay("input", data["input"], i, m))
+        return chk.finish()
     check_cases(chk, [data["input"]], "replay")
     return chk.finish()
